@@ -170,7 +170,11 @@ impl<'a> MessageParser<'a> {
         }
 
         // Extract field content using the field_extractor module
-        let extract_result = extract_field_content(&self.input[self.position..], tag);
+        let extract_result = if self.detect_field(tag) {
+            extract_field_content(&self.input[self.position..], tag)
+        } else {
+            None
+        };
 
         match extract_result {
             Some((content, consumed)) => {
